@@ -391,3 +391,44 @@ class SendMsgAlwaysTransmits(FnCheck):
                       z3.Or(*[z3.And(r == Val.ref(self.cm.e), data == d) for r, d in ser if r is not None]) if ser else z3.BoolVal(False))
             ex.oblige(st, 'to_the_address_of_this_entry', z3.And(dest[0] == Val.str(self.addr.e), dest[1] == Val.int(self.port.e))
                       if dest is not None and len(dest) == 2 else z3.BoolVal(False))
+
+
+@register
+class ScheduledDatagramsAreNeverDropped(ScanCheck):
+    id = 'C15.scheduled_datagrams_are_never_dropped'
+    prop = 'C15'
+    doc = ('frame over the networking thread module: a scheduled transmission leaves the send queue only through the one '
+           '`get()` of the send loop (_run_send, which then transmits it: C15.send_loop_never_early / send_msg); no other '
+           'code clears, drains or replaces the queue, and stopping (join) waits for the send thread WITHOUT a timeout - '
+           'the loop ends only when the queue is empty, so every one of the 1 + repeat scheduled transmissions of every '
+           'message (Bye included) goes out')
+
+    REMOVERS = {'get', 'get_nowait', 'clear', 'pop', 'popleft', 'task_done', 'remove'}
+
+    def scan(self, repo):
+        nt = repo.module(MOD)
+        removals, assigns, joins, mutex = [], [], [], []
+        for cname, cd in nt.classes.items():
+            for fn in [n for n in cd.body if isinstance(n, (_ast.FunctionDef, _ast.AsyncFunctionDef))]:
+                for n in _ast.walk(fn):
+                    if isinstance(n, _ast.Call) and isinstance(n.func, _ast.Attribute):
+                        recv = _ast.unparse(n.func.value)
+                        if '_send_queue' in recv and n.func.attr in self.REMOVERS:
+                            removals.append((cname, fn.name, _ast.unparse(n.func)))
+                        if n.func.attr == 'join' and '_send_thread' in recv:
+                            joins.append((fn.name, len(n.args), sorted(k.arg or '**' for k in n.keywords)))
+                    if isinstance(n, (_ast.Assign, _ast.AugAssign, _ast.AnnAssign, _ast.Delete)):
+                        tgts = n.targets if isinstance(n, (_ast.Assign, _ast.Delete)) else [n.target]
+                        for t in tgts:
+                            if '_send_queue' in _ast.unparse(t):
+                                assigns.append((cname, fn.name, _ast.unparse(t)))
+                    if isinstance(n, _ast.Attribute) and n.attr in ('mutex', 'queue') and '_send_queue' in _ast.unparse(n.value) \
+                            and fn.name != '_run_send':
+                        mutex.append((cname, fn.name, _ast.unparse(n)))
+        return [('only_the_send_loop_takes_entries_from_the_queue',
+                 removals == [('NetworkingThread', '_run_send', 'self._send_queue.get')], {'sites': str(removals)}),
+                ('queue_object_created_once_and_never_replaced',
+                 assigns == [('NetworkingThread', '__init__', 'self._send_queue')], {'sites': str(assigns)}),
+                ('queue_internals_touched_by_the_send_loop_only', not mutex, {'sites': str(mutex)}),
+                ('stopping_waits_for_the_send_thread_without_timeout',
+                 joins == [('join', 0, [])], {'sites': str(joins)})]
